@@ -18,6 +18,8 @@ THEOREMS = [_P + n for n in [
     "one_close_frame", "close_frame_count", "no_data_after_close", "write_after_close_fails", "on_close_once",
     "on_close_when_down", "down_implies_notified", "teardown_timeout", "closed_iff_logged", "peer_terminated_closed",
     "close_sent_terminated", "waiting_ping_off", "inv_run",
+    "inv2_run", "echo_unless_sent", "both_closed_sends_close", "teardown_both_closed", "on_close_carries_peer_close",
+    "close_code_is_peers",
 ]]
 TRUSTED = [
     "asyncio task/timer ordering and BaseIOStream read/close semantics as abstracted by the model's receive loop "
@@ -39,11 +41,11 @@ CLAUSES = {
     "each side sends at most one close frame": "one_close_frame, close_frame_count",
     "and no data frame after it": "no_data_after_close",
     "echoes the peer's close code unless it had already sent its own close frame":
-        "tie only: Spec.echoesPeerCode + Spec.bothClosedSendsClose applied to every run of the implementation and (by exact correspondence) of the model; stated as echo_unless_sent_goal / both_closed_sends_close_goal",
+        "echo_unless_sent (a close frame written after the peer's was received carries exactly the peer's code; with one_close_frame: unless ours was already sent) + both_closed_sends_close (our close frame is on the wire at every step boundary after a well-formed peer close)",
     "tears down the TCP connection once both sides have closed or the closing timeout elapses":
-        "teardown_timeout (timeout) + peer_terminated_closed (peer's close processed => transport down); trace form teardown_both_closed_goal tie only",
+        "teardown_both_closed (both closed) + teardown_timeout (timeout) + peer_terminated_closed (peer's close processed => transport down)",
     "the close notification fires exactly once": "on_close_once + on_close_when_down + down_implies_notified",
-    "with the peer's code and reason when one was received": "tie only: Spec.notifyCarriesPeerClose (on_close_carries_peer_close_goal)",
+    "with the peer's code and reason when one was received": "on_close_carries_peer_close + close_code_is_peers (state form)",
     "writes after closing fail with WebSocketClosedError": "write_after_close_fails + close_sent_terminated",
 }
 PARALLEL = True
